@@ -54,6 +54,11 @@ def main():
         sh("git", "-C", WT, "checkout", "-q", "--", ".")
         caught = [p for p, h in hits.items() if h["exit"] == 1]
         results[s] = {"property": prop, "caught_by": caught, "detail": {p: h for p, h in hits.items() if h["exit"] != 0}}
+        fr = os.path.join(d, "first_result.json")
+        if not os.path.exists(fr) and not allprops:
+            # what the checks said the first time this seed was run (never overwritten afterwards)
+            json.dump({"first_result": ("caught (%s)" % ", ".join(sorted({l.split("rule=")[1].split()[0] for l in hits.get(prop, {}).get("reports", []) if "rule=" in l}))
+                                        if prop in caught else "missed")}, open(fr, "w"))
         print("%-10s property=%s %s" % (s, prop, ("CAUGHT by " + ",".join(caught)) if caught else
                                         ("MISSED" if prop in claimed else "MISSED (property not claimed)")))
         for p in caught:
@@ -62,7 +67,12 @@ def main():
         for p, h in hits.items():
             if h["exit"] == 2:
                 print("       ANALYSIS-ERROR in", p, h["reports"][:1])
-    json.dump(results, open(os.path.join(ROOT, "seeded", "RESULTS.json"), "w"), indent=1)
+    rp = os.path.join(ROOT, "seeded", "RESULTS.json")
+    merged = {}
+    if os.path.exists(rp) and args:
+        merged = json.load(open(rp))
+    merged.update(results)
+    json.dump(merged, open(rp, "w"), indent=1, sort_keys=True)
     shutil.rmtree("/tmp/seed_evidence", ignore_errors=True)
     return 0
 
